@@ -3757,14 +3757,12 @@ Box<ITV>
   if (corrected_relsym == LESS_THAN || corrected_relsym == LESS_OR_EQUAL) {
     if (bound_below) {
       revised_expr = expr;
-      revised_expr.set_inhomogeneous_term(Coefficient_zero());
-      revised_expr *= d;
+      revised_expr *= min_denom;
     }
   }
   else {
     if (bound_above) {
       revised_expr = expr;
-      revised_expr.set_inhomogeneous_term(Coefficient_zero());
       revised_expr *= max_denom;
     }
   }
